@@ -114,7 +114,9 @@ def wrap(x):
         return x
     if isinstance(x, (bool, np.bool_)):
         return bool(x)
-    if isinstance(x, (int, np.integer)):
+    if isinstance(x, np.integer):
+        return x  # stays a numpy integer: not a Python int
+    if isinstance(x, int):
         return int(x)
     if isinstance(x, (float, np.floating)):
         return Num(float(x))
